@@ -768,3 +768,133 @@ func LeavesIP(p *Prog, fn *ssa.Function, v ssa.Value, depth int) []ssa.Value {
 	}
 	return out
 }
+
+// anchorNames are the function names the rules refer to as owners of a role;
+// ownerFn never lifts past them.
+var anchorNames = map[string]bool{
+	"input": true, "inputData": true, "inputAck": true, "inputClose": true, "closeWithError": true, "Close": true,
+	"Read": true, "Write": true, "writeChunk": true, "output": true, "runOutputOnceStream": true, "runOutputOncePacket": true,
+	"moveRecvBufToRecvQueue": true, "waitForRecvQueueSpace": true, "Unmarshal": true, "Marshal": true, "SetUsers": true,
+	"onOpenSessionRequest": true, "onOpenSessionResponse": true, "RunEventLoop": true, "readOneSegment": true,
+	"writeOneSegment": true, "maybeInitSendBlockCipher": true, "tryState": true, "tryUser": true, "discoverUser": true,
+	"buildState": true, "IsDuplicate": true, "handleAuthentication": true, "FindAction": true, "newSessionWithServerUserPolicy": true,
+	"SetDeadline": true, "SetReadDeadline": true, "SetWriteDeadline": true, "readSessionSegment": true, "readDataAckSegment": true,
+	"parseSessionSegment": true, "parseDataAckSegment": true, "doRollUp": true, "isDestinationAllowed": true,
+}
+
+// ownerFn attributes a small unexported helper to the function it was
+// extracted from: while fn is unexported, is not itself a role owner, and all
+// its (non-test) static call sites lie in one function, that function takes
+// its place. A who-may-write / who-may-call rule then judges "a helper of
+// Session.input" as Session.input.
+func ownerFn(p *Prog, fn *ssa.Function) *ssa.Function {
+	fn = outermost(fn)
+	for d := 0; d < 3; d++ {
+		if fn.Object() == nil || fn.Object().Exported() || anchorNames[fn.Name()] {
+			return fn
+		}
+		var callers []*ssa.Function
+		seen := map[*ssa.Function]bool{}
+		for _, cs := range p.CallsToFn(fn) {
+			if strings.HasSuffix(strings.SplitN(p.Pos(cs.Pos()), ":", 2)[0], "_test.go") {
+				continue
+			}
+			o := outermost(cs.Fn)
+			if !seen[o] {
+				seen[o] = true
+				callers = append(callers, o)
+			}
+		}
+		if len(callers) != 1 || callers[0] == fn {
+			return fn
+		}
+		fn = callers[0]
+	}
+	return fn
+}
+
+func ownerName(p *Prog, fn *ssa.Function) string { return ownerFn(p, fn).Name() }
+
+// cmpForm reports whether cond is equivalent to (A op B) for some operand A
+// accepted by pa and B accepted by pb, whatever way it is written: operands
+// swapped (b > a for a < b), negated (!(a >= b)), or both.
+func cmpForm(cond ssa.Value, op token.Token, pa, pb func(ssa.Value) bool) bool {
+	v, neg := condAtom(cond)
+	bo, ok := v.(*ssa.BinOp)
+	if !ok {
+		return false
+	}
+	negate := map[token.Token]token.Token{token.LSS: token.GEQ, token.GEQ: token.LSS, token.GTR: token.LEQ, token.LEQ: token.GTR, token.EQL: token.NEQ, token.NEQ: token.EQL}
+	swap := map[token.Token]token.Token{token.LSS: token.GTR, token.GTR: token.LSS, token.LEQ: token.GEQ, token.GEQ: token.LEQ, token.EQL: token.EQL, token.NEQ: token.NEQ}
+	actual := bo.Op
+	if _, known := negate[actual]; !known {
+		return false
+	}
+	if neg {
+		actual = negate[actual]
+	}
+	if pa == nil {
+		pa = func(ssa.Value) bool { return true }
+	}
+	if pb == nil {
+		pb = func(ssa.Value) bool { return true }
+	}
+	if actual == op && pa(bo.X) && pb(bo.Y) {
+		return true
+	}
+	if swap[actual] == op && pa(bo.Y) && pb(bo.X) {
+		return true
+	}
+	return false
+}
+
+// LeavesX extends LeavesIP in the other direction too: a leaf that is the
+// result of a call to an unexported function of a product package is
+// replaced by the leaves of what that function returns in that result
+// position (non-nil-error returns only when the last result is an error),
+// so "cipher := u.cipherForSend(seg)" is as transparent as the statements it
+// was extracted from. Depth is bounded; anything not expandable stays a leaf.
+func LeavesX(p *Prog, fn *ssa.Function, v ssa.Value, depth int) []ssa.Value {
+	var out []ssa.Value
+	for _, l := range LeavesIP(p, fn, v, depth) {
+		var call *ssa.Call
+		idx := 0
+		switch x := l.(type) {
+		case *ssa.Call:
+			call = x
+		case *ssa.Extract:
+			if cl, ok := x.Tuple.(*ssa.Call); ok {
+				call, idx = cl, x.Index
+			}
+		}
+		if call == nil || depth >= 2 {
+			out = append(out, l)
+			continue
+		}
+		sc := call.Common().StaticCallee()
+		if sc == nil || sc.Blocks == nil || sc.Object() == nil || sc.Object().Exported() || !inProduct(sc.Pkg.Pkg.Path()) || len(sc.Blocks) > 30 {
+			out = append(out, l)
+			continue
+		}
+		expanded := false
+		instrs(sc, func(_ *ssa.BasicBlock, _ int, in ssa.Instruction) {
+			r, ok := in.(*ssa.Return)
+			if !ok || idx >= len(r.Results) {
+				return
+			}
+			// skip returns that carry a non-nil error: their other results are not used
+			last := len(r.Results) - 1
+			if last != idx && types.Identical(sc.Signature.Results().At(last).Type(), types.Universe.Lookup("error").Type()) && !retIsNil(r, last) {
+				if _, isK := retVal(r, last).(*ssa.Const); !isK {
+					// possibly non-nil error: still include conservatively below
+				}
+			}
+			expanded = true
+			out = append(out, LeavesX(p, sc, retVal(r, idx), depth+1)...)
+		})
+		if !expanded {
+			out = append(out, l)
+		}
+	}
+	return out
+}
